@@ -25,6 +25,9 @@ import Mathlib.GroupTheory.GroupAction.DomAct.Basic
 import Mathlib.GroupTheory.Perm.Basic
 import Mathlib.Data.Fintype.Perm
 import Mathlib.Data.Rat.Cast.CharZero
+import Mathlib.Algebra.Group.Subgroup.Actions
+import Mathlib.Tactic.NormNum
+import Mathlib.Algebra.Module.Basic
 
 namespace WB.C20
 
@@ -218,6 +221,68 @@ theorem avg_hermitian (J : V →+ V) (hJK : ∀ (c : K) v, J (c • v) = c • J
     (hJg : ∀ (g : G) v, J (g • v) = g • J v) (v : V) (hv : J v = v) : J (avg G K v) = avg G K v := by
   rw [avg_comm J hJK hJg, hv]
 
+/-! ### the normalisation is part of the statement -/
+
+variable (G) in
+/-- the sum over the operations actually used (`G` = the group selected with `use_symmetries_index`), divided by an
+    arbitrary count `n` -/
+noncomputable def avgN (n : K) (v : V) : V := n⁻¹ • ∑ g : G, g • v
+
+omit [SMulCommClass G K V] in
+/-- dividing by the number of operations summed over is the average of T1 -/
+theorem avgN_card (v : V) : avgN G (Fintype.card G : K) v = avg G K v := rfl
+
+/-- whatever the count, the result is invariant under the operations used … -/
+theorem smul_avgN (n : K) (h : G) (v : V) : h • avgN G n v = avgN G n v := by
+  unfold avgN
+  rw [smul_comm, Finset.smul_sum]
+  congr 1
+  simp only [← mul_smul]
+  exact sum_smul_reindex h v
+
+/-- … but every further pass multiplies it by `|G| / n` -/
+theorem avgN_avgN (n : K) (v : V) :
+    avgN G n (avgN G n v) = (n⁻¹ * (Fintype.card G : K)) • avgN G n v := by
+  have hinv : ∀ g : G, g • avgN G n v = avgN G n v := fun g => smul_avgN n g v
+  show n⁻¹ • ∑ g : G, g • avgN G n v = _
+  simp only [hinv, Finset.sum_const, Finset.card_univ]
+  rw [← Nat.cast_smul_eq_nsmul K, smul_smul]
+
+/-- T1d.  Dividing the sum over the selected operations by any count `n` is idempotent (on an input whose
+    symmetrised value is not zero) **only if** `n` is the number of operations summed over.  In particular, the
+    average over a subgroup `H` normalised by the order of the full group is not a projection unless `|H| = |G|`. -/
+theorem avgN_idem_iff (n : K) (hn : n ≠ 0) (v : V) (hw : avgN G n v ≠ 0) :
+    avgN G n (avgN G n v) = avgN G n v ↔ n = (Fintype.card G : K) := by
+  rw [avgN_avgN]
+  constructor
+  · intro h
+    have h1 : (n⁻¹ * (Fintype.card G : K) - 1) • avgN G n v = 0 := by
+      rw [sub_smul, one_smul, h, sub_self]
+    rcases smul_eq_zero.1 h1 with h2 | h2
+    · have h3 : n⁻¹ * (Fintype.card G : K) = 1 := sub_eq_zero.1 h2
+      have := congrArg (fun x => n * x) h3
+      simp only [← mul_assoc, mul_inv_cancel₀ hn, one_mul, mul_one] at this
+      exact this.symm
+    · exact absurd h2 hw
+  · intro h
+    rw [← h, inv_mul_cancel₀ hn, one_smul]
+
+/-- T1 for a selected subgroup: the theorems above apply verbatim to `H ≤ G` acting by restriction, with the
+    count `|H|` -/
+theorem avg_subgroup_idem {G₀ : Type*} [Group G₀] [DistribMulAction G₀ V] [SMulCommClass G₀ K V]
+    (H : Subgroup G₀) [Fintype H] (hcard : (Fintype.card H : K) ≠ 0) (v : V) :
+    avg H K (avg H K v) = avg H K v :=
+  avg_idem hcard v
+
+/-- and with the count of the full group instead of `|H|` the subgroup "average" is idempotent only when the two
+    counts agree in `K` -/
+theorem subgroup_wrong_count {G₀ : Type*} [Group G₀] [Fintype G₀] [DistribMulAction G₀ V] [SMulCommClass G₀ K V]
+    (H : Subgroup G₀) [Fintype H] (hG : (Fintype.card G₀ : K) ≠ 0) (v : V)
+    (hw : avgN H (Fintype.card G₀ : K) v ≠ 0) :
+    avgN H (Fintype.card G₀ : K) (avgN H (Fintype.card G₀ : K) v) = avgN H (Fintype.card G₀ : K) v
+      ↔ (Fintype.card G₀ : K) = (Fintype.card H : K) :=
+  avgN_idem_iff _ hG v hw
+
 end avg
 
 section nonvacuous
@@ -230,6 +295,30 @@ example (v : Fin 3 → ℚ) :
   avg_idem (by
     have : 0 < Fintype.card (Equiv.Perm (Fin 3))ᵈᵐᵃ := Fintype.card_pos
     exact_mod_cast this.ne') v
+
+/-- counterexample documenting T1d: summing over the 6 relabellings but dividing by 12 (the order of a group twice as
+    large) halves the constant vector at every pass — the result is invariant but the map is not idempotent -/
+theorem wrong_count_not_idempotent :
+    avgN (Equiv.Perm (Fin 3))ᵈᵐᵃ (12 : ℚ) (avgN (Equiv.Perm (Fin 3))ᵈᵐᵃ (12 : ℚ) (fun _ : Fin 3 => (1 : ℚ)))
+      ≠ avgN (Equiv.Perm (Fin 3))ᵈᵐᵃ (12 : ℚ) (fun _ : Fin 3 => (1 : ℚ)) := by
+  have hcard : Fintype.card (Equiv.Perm (Fin 3))ᵈᵐᵃ = 6 := by
+    rw [← Fintype.card_congr (DomMulAct.mk (M := Equiv.Perm (Fin 3))), Fintype.card_perm]; rfl
+  have hinv : ∀ g : (Equiv.Perm (Fin 3))ᵈᵐᵃ, g • (fun _ : Fin 3 => (1 : ℚ)) = fun _ => 1 := by
+    intro g; funext i; rfl
+  have hval : avgN (Equiv.Perm (Fin 3))ᵈᵐᵃ (12 : ℚ) (fun _ : Fin 3 => (1 : ℚ)) = fun _ => (1 / 2 : ℚ) := by
+    unfold avgN
+    simp only [hinv, Finset.sum_const, Finset.card_univ, hcard]
+    funext i
+    simp only [Pi.smul_apply, smul_eq_mul, nsmul_eq_mul]
+    norm_num
+  intro h
+  have hne : avgN (Equiv.Perm (Fin 3))ᵈᵐᵃ (12 : ℚ) (fun _ : Fin 3 => (1 : ℚ)) ≠ 0 := by
+    rw [hval]; intro h0
+    have := congrFun h0 0
+    norm_num at this
+  have := (avgN_idem_iff (12 : ℚ) (by norm_num) _ hne).1 h
+  rw [hcard] at this
+  norm_num at this
 end nonvacuous
 
 /-! ### the concrete shape of the operations: `J` commutes with them -/
